@@ -250,6 +250,11 @@ func Main(args []string) int {
 			for i := 0; i < *nrep; i++ {
 				x := RunOnce(h.Sched(*v), RunOptions{Prefix: cs, Bound: 1 << 20, Trace: true})
 				fmt.Printf("run %d: choices=%d steps=%d trace=%d diverged=%q\n", i, len(x.Choices), x.Steps, len(x.Trace), x.Diverged)
+				if *verbose && i == 0 {
+					for k, l := range x.Trace {
+						fmt.Printf("%5d %s\n", k, l)
+					}
+				}
 				if first == nil {
 					first = x
 					continue
